@@ -525,7 +525,7 @@ def c17_case(rec, hub, rng, tier, which):
     persistent = {}  # parameter objects kept by the "user", changed in place and passed again
     base = f"{cls_name}/{solver}|{cfg['model'] if lm is not None else '-'}|{cfg['gclass']}|nt={nt}"
     for step in range(length):
-        op = str(rng.choice(["driver", "set_prms", "compute", "read", "compute"])) if step < length - 1 else "compute"
+        op = str(rng.choice(["driver", "set_prms", "compute", "read", "compute", "error"])) if step < length - 1 else "compute"
         if op == "set_prms" and lm is None:
             op = "driver"
         hist.append(op)
@@ -555,6 +555,19 @@ def c17_case(rec, hub, rng, tier, which):
                 hist[-1] = "set_prms" + ("(same object)" if mode < 0.35 else "")
                 live.lifetime_model.set_prms(**kw)
                 told = {k: np.array(v, dtype=float) for k, v in nt_.items()}
+            elif op == "error":
+                # calls that must fail (and are caught by the user); nothing of them may stick
+                bad_dim = fd.Dimension(letter="q", name="quux", items=["q1", "q2"])
+                attempts = [lambda: getattr(live, drive_attr).__setitem__(Ellipsis, np.ones((2, 3, 4, 5, 6))), lambda: getattr(live, drive_attr).set_values(np.ones((1,)))]
+                if lm is not None:
+                    pn0 = list(cfg["truth"].keys())
+                    attempts += [lambda: live.lifetime_model.set_prms(**{k_: fd.FlodymArray(dims=fd.DimensionSet(dim_list=[bad_dim]), values=np.array([1.0, 2.0])) for k_ in pn0}),
+                                 lambda: live.lifetime_model.set_prms(), lambda: type(live)(dims=live.dims, lifetime_model=live.lifetime_model, time_letter="zz")]
+                for a_ in attempts:
+                    try:
+                        a_()
+                    except Exception:
+                        pass
             elif op == "read" and lm is not None:
                 live.lifetime_model.sf
                 live.lifetime_model.pdf
